@@ -219,15 +219,31 @@ func c04body(c c04case, obs *c04obs) func(x *vrt.Exec) {
 				mutate("n1", 1)
 			}
 			mutate("n2", 2) // the later task of the queue
+			if c.K > 0 {
+				// one more event arrives while the queue sits in its back-off delay
+				vrt.WaitFor("first-failure", 20*time.Minute, func() bool {
+					for _, r := range fx.Runs {
+						if r.Failed && r.EndSeq > 0 {
+							return true
+						}
+					}
+					return false
+				})
+				mutate("n2", 3)
+			}
 			envDone = true
 		})
 		obs.Settled = vrt.WaitFor("settled", 60*time.Minute, func() bool {
 			if !envDone || hub.Pending() || hub.Busy != 0 || !fx.op.TaskQueues.GetMain().IsEmpty() || !idle(fx, "main") {
 				return false
 			}
+			lastWanted := "kb2/Event/v2/Modified"
+			if c.K > 0 {
+				lastWanted = "kb2/Event/v3/Modified"
+			}
 			for _, r := range fx.Runs {
 				for _, cc := range r.Contexts {
-					if ctxKey(cc) == "kb2/Event/v2/Modified" && r.EndSeq > 0 {
+					if ctxKey(cc) == lastWanted && r.EndSeq > 0 {
 						return true
 					}
 				}
